@@ -301,7 +301,9 @@ def load : P LoadAt := fun ts =>
   | _ => none
 
 def parseFile (ts : List Token) : Option File := do
-  let fuel := ts.length + 2
+  -- every nesting level of the type grammar consumes a bounded number of fuel units (≤ 5) and at
+  -- least one token, so this never runs out on any token list
+  let fuel := 8 * ts.length + 16
   let (ls, ts) ← many fuel (fun t => !(peekKw "@import" t || peekKw "@extern" t)) load fuel ts
   let (cs, ts) ← many fuel (fun t => t.isEmpty) (content fuel) fuel ts
   if ts.isEmpty then some { loads := ls, contents := cs } else none
